@@ -26,7 +26,8 @@ os.makedirs(os.environ["PYVC_SCRATCH"], exist_ok=True)
 
 import z3  # noqa: E402
 
-from pyvc.engine import Session  # noqa: E402
+from pyvc.engine import Session
+from pyvc.values import Unsupported  # noqa: E402
 from pyvc.solver import axiom_instances, model_value  # noqa: E402
 from pyvc.values import Sym, Tensor  # noqa: E402
 
@@ -198,6 +199,11 @@ def main():
     S = Session(prop)
     try:
         meta = mod.build(S, a.tier) or {}
+    except Unsupported as e:
+        # the current tree uses a construct the verifier does not accept outside any explored scenario (e.g. at import time
+        # of the package): everything after that point is out of reach; what was generated before it is still judged
+        meta = {"assumptions": [], "undecided_clauses": []}
+        S.unsupported.append((f"contract of {prop} (aborted)", str(e)))
     except Exception:
         traceback.print_exc()
         print(f"CHECKER-CRASH property={prop} while generating obligations")
